@@ -726,7 +726,16 @@ func (ar *asyncRunner) step(res Value, done bool, ex *Exception) {
 	}
 
 	// await
-	promise := r.promiseResolve(r.getPromise(), res)
+	var promise *Object
+	if ex := r.vm.try(func() {
+		promise = r.promiseResolve(r.getPromise(), res)
+	}); ex != nil {
+		// Await: "Let promise be ? PromiseResolve(%Promise%, value)" - an abrupt completion (a throwing
+		// 'constructor' getter of the awaited promise) is thrown at the await expression
+		res, resType, ex1 := ar.gen.nextThrow(ex.val)
+		ar.step(res, resType == resultNormal, ex1)
+		return
+	}
 	promise.self.(*Promise).addReactions(&promiseReaction{
 		typ:         promiseReactionFulfill,
 		handler:     &jobCallback{callback: ar.onFulfilled},
